@@ -68,6 +68,5 @@ func TestVerifC13(t *testing.T) {
 		cases = vh.EnvInt("VERIF_C13_CASES", 120000)
 		big = 9
 	}
-	c13core.JoinProbe(out, vh.NewRand(vh.Seed()).Fork(999), 3000)
 	c13core.Run(out, vh.Seed(), targets, cases, big)
 }
